@@ -11,6 +11,7 @@ import (
 	"sort"
 	"strings"
 	"testing"
+	"time"
 
 	"github.com/fsnotify/fsnotify"
 
@@ -133,6 +134,106 @@ func TestVerifReplayC20(t *testing.T) {
 			bad = append(bad, fmt.Sprintf("event %d (%s): task ran %q, expected %q", e, names[ty], got, want))
 		}
 	}
+	if len(bad) > 0 {
+		fmt.Println("REPLAY: reproduced:", strings.Join(bad, "; "))
+	} else {
+		fmt.Println("REPLAY: not-reproduced (real code satisfies the property on this input)")
+	}
+}
+
+// Replay of VerifC20Loop scenarios: the real Watcher.Run over real files with a real fsnotify
+// watcher; the events of the scenario are put on the watcher's own event channel (as the
+// repository's TestNewWatcher does), one per polling round; then Close.
+func TestVerifReplayC20Loop(t *testing.T) {
+	data, err := os.ReadFile(os.Getenv("VERIF_SCENARIO"))
+	if err != nil {
+		t.Skip("no scenario")
+	}
+	var sc struct {
+		Args   []int64                `json:"args"`
+		Inputs map[string]interface{} `json:"inputs"`
+	}
+	json.Unmarshal(data, &sc)
+	bv := func(k string) bool { v, _ := sc.Inputs[k].(bool); return v }
+	dir := t.TempDir()
+	names := []string{eventCreate, eventWrite, eventRemove, eventRename, eventChmod}
+	ops := []fsnotify.Op{fsnotify.Create, fsnotify.Write, fsnotify.Remove, fsnotify.Rename, fsnotify.Chmod}
+	var events []string
+	sub := make([]bool, 5)
+	any := false
+	for i, n := range names {
+		sub[i] = bv("subscribed." + n)
+		if sub[i] {
+			events = append(events, n)
+			any = true
+		}
+	}
+	n := int(sc.Args[0])
+	var files []string
+	for e := 0; e < 4; e++ {
+		f := filepath.Join(dir, fmt.Sprintf("f%d", e))
+		os.WriteFile(f, nil, 0o644)
+		files = append(files, f)
+	}
+	trace := filepath.Join(dir, "trace.log")
+	tk := task.FromCommands(fmt.Sprintf(`echo "ran [$EventName] [$EventPath]" >> %s`, trace))
+	tk.Name = "wt"
+	w, err := NewWatcher("w", events, []string{filepath.Join(dir, "f*")}, nil, tk)
+	if err != nil {
+		t.Fatal(err)
+	}
+	r, _ := runner.NewTaskRunner()
+	r.Stdout, r.Stderr = &strings.Builder{}, &strings.Builder{}
+	returned := make(chan error, 1)
+	go func() { returned <- w.Run(r) }()
+	tys := make([]int, n)
+	for e := 0; e < n; e++ {
+		if f, ok := sc.Inputs[fmt.Sprintf("event.%d.type", e)].(float64); ok {
+			tys[e] = int(f)
+		}
+		select {
+		case w.fsw.Events <- fsnotify.Event{Name: files[e], Op: ops[tys[e]]}:
+		case <-time.After(5 * time.Second):
+			fmt.Printf("REPLAY: reproduced: the watcher stopped taking events (event %d not received within 5 s)\n", e)
+			return
+		}
+		time.Sleep(1500 * time.Millisecond) // the handler of this event runs before the next one arrives
+	}
+	closed := make(chan struct{})
+	go func() { w.Close(); close(closed) }()
+	var bad []string
+	select {
+	case <-closed:
+	case <-time.After(10 * time.Second):
+		bad = append(bad, "Close does not return within 10 s")
+	}
+	select {
+	case rerr := <-returned:
+		if rerr != nil {
+			bad = append(bad, "Run returned "+rerr.Error())
+		}
+	case <-time.After(10 * time.Second):
+		bad = append(bad, "Run does not return within 10 s after Close")
+	}
+	time.Sleep(300 * time.Millisecond)
+	raw, _ := os.ReadFile(trace)
+	lines := strings.Split(strings.TrimSpace(string(raw)), "\n")
+	for e := 0; e < n; e++ {
+		line := fmt.Sprintf("ran [%s] [%s]", names[tys[e]], files[e])
+		ran := false
+		for _, l := range lines {
+			if l == line {
+				ran = true
+			} else if strings.HasSuffix(l, "["+files[e]+"]") {
+				bad = append(bad, fmt.Sprintf("event %d: the task saw %q, expected %q", e, l, line))
+			}
+		}
+		want := !any || sub[tys[e]]
+		if ran != want {
+			bad = append(bad, fmt.Sprintf("event %d (%s, subscribed=%v): task ran=%v", e, names[tys[e]], want, ran))
+		}
+	}
+	fmt.Printf("REPLAY: events=%v subscribed=%v trace=%q\n", tys, events, lines)
 	if len(bad) > 0 {
 		fmt.Println("REPLAY: reproduced:", strings.Join(bad, "; "))
 	} else {
